@@ -21,7 +21,8 @@ RULE = ("Enumerated completely: axis length L = 1..7 (quick) / 1..12 (thorough),
         "max(index(end), n-1) descending; every yielded item must carry nansum / nanmean / the untouched slice of exactly that window, "
         "be stamped with axis[k] (time dim) and carry agg_start, agg_stop, agg_n; a label that cannot be located raises ValueError. "
         "Non-trivial: begin or end given, or n not in {1,3}, or L != 5; distinct by configuration. "
-        " Added after the fourth seeded round: Cube also as the variables of a Dataset; sub-check 'history': axis relabelled / cells overwritten in place between calls, compared with a brand-new object.")
+        " Added after the fourth seeded round: Cube also as the variables of a Dataset; sub-check 'history': axis relabelled / cells overwritten in place between calls, compared with a brand-new object. "
+        " Added after the fifth seeded round: Lazy cubes with all windows evaluated afterwards; int16 / uint8 / int32 cubes whose sums exceed the storage dtype.")
 ASSUME = ["label lookup model: ffill = last label <= target, bfill = first label >= target, nearest (equidistant targets avoided)"]
 EXHAUSTIVE_WHOLE = False
 
